@@ -526,7 +526,16 @@ func runC07(c *mc.Ctx) {
 			payloads = append(payloads, bytes.Repeat([]byte{f}, L))
 		}
 	}
-	c.Space("base58check encode: version x payload", int64(256*len(payloads)))
+	// every payload length 0..300 with position-dependent content (a limit placed on one side only, a
+	// buffer sized for the usual lengths)
+	for L := 0; L <= 300; L++ {
+		b := make([]byte, L)
+		for i := range b {
+			b[i] = byte(i*29+L) | 1
+		}
+		payloads = append(payloads, b)
+	}
+	c.Space("base58check encode: version x payload (small payloads, 20/32 bytes, every length 0..300)", int64(256*len(payloads)))
 	c.ParFor(int64(256*len(payloads)), func(w *mc.W, i int64) {
 		w.State()
 		c07EvalCheck(w, c07Bytes{Fn: "enc", Hex: mc.Hex(payloads[i/256]), Ver: int(i % 256)})
